@@ -1,6 +1,7 @@
 import Norad.Base.Proto
 import Driver.C11
 import Driver.C12
+import Driver.C02
 /-!
 # Line-protocol driver
 
@@ -14,6 +15,7 @@ def dispatch (inp obs : List String) : Verdict :=
   match inp.head? with
   | some "C11" => Driver.C11.run inp obs
   | some "C12" => Driver.C12.run inp obs
+  | some "C02" => Driver.C02.run inp obs
   | _ => { agree := false, model := "unknown-model" }
 
 partial def loop (h : IO.FS.Stream) (out : IO.FS.Stream) : IO Unit := do
